@@ -8,7 +8,8 @@ from ..core import (AnalysisError, dotted, unparse, calls_in, call_name,
 from ..flow import guards_at, flatten_guards
 from ..tables import tables_of, cdict_lookup
 from ..mutate import Mutant, in_func
-from . import c18, c14, c16, c06
+from . import c18, c14, c16, c06, c08, c15
+from ..report import Result
 
 ID = 'C01'
 EXPLANATION = (
@@ -24,7 +25,7 @@ EXPLANATION = (
     'every model class, the writer found in serialization_handlers and the '
     'reader found in deserialization_handlers (cdict lookup semantics) belong '
     'to the same family. R4 the user function runs exactly once (C14-R2). '
-    'R5 wire order is declaration order, parents first, members under the '
+    'R6 the primitive text codecs satisfy the structural rules of C08 (zero-padded fractions, duration sign/early return, offset sign, lexical-space table). R7 appending fields clears the whole flattened-type-info memo so reader and writer see the same members (C15-R2). R5 wire order is declaration order, parents first, members under the '
     'namespace of the declaring class (C16-R1, C06-R3). Not decided: equality '
     'of values through the codecs (C08 partially), third-party client '
     'interop, validator interaction.')
@@ -332,7 +333,23 @@ def rule_shared(prog, res, tier):
         res.errors.extend(tmp.errors)
 
 
+def rule_shared2(prog, res):
+    res.share('R6', 'primitive text codecs keep fractions, signs and '
+              'lexical spaces (C08-R3/R4/R5)', 'C08', c08.rule_r3, prog,
+              Result)
+    res.share('R6', 'primitive text codecs keep fractions, signs and '
+              'lexical spaces (C08-R3/R4/R5)', 'C08', c08.rule_r4, prog,
+              Result)
+    res.share('R6', 'primitive text codecs keep fractions, signs and '
+              'lexical spaces (C08-R3/R4/R5)', 'C08', c08.rule_r5, prog,
+              Result)
+    res.share('R7', 'field evolution invalidates the flattened type info '
+              'that reader and writer share (C15-R2)', 'C15', c15.rule_r2,
+              prog, Result)
+
+
 def run(prog, res, tier):
+    res.run_rule(rule_shared2, prog, res)
     res.run_rule(rule_r1, prog, res)
     res.run_rule(rule_r2, prog, res, tier)
     res.run_rule(rule_r3, prog, res)
